@@ -1,4 +1,5 @@
 import ReplicatProofs.Lemmas.Options
+import ReplicatProofs.Lemmas.OptionsCustom
 /-!
 # C19 — option precedence: command line > environment > profile > default section > built-in
 
@@ -6,7 +7,7 @@ Property theorems only (helper lemmas: `Lemmas/Options.lean`; model: `ReplicatMo
 
 `pipeline` follows `replicat.__main__.main` in the order `Gen.optSteps` (extracted from the AST) for one row of
 `Gen.optRows` (the option table extracted from the real argparse parsers: sub-commands, common options, the backend
-options of local / s3 / s3c / b2 and of the custom backend `vfy`).  `spec` = the first source that sets the option, in
+options of local / s3 / s3c / b2 and of the custom backends `vfy` and `vfa`).  `spec` = the first source that sets the option, in
 the documented order, through the option's type function once.  Every theorem quantifies over ALL leaf semantics
 `sem` (what `parse_repository`, `guess_type`, `Path`, … compute), all raw values and all rows / sub-commands of the
 generated tables; `Simple` inputs = at most one way of setting the option per source, hence all 2⁴ subsets of
@@ -21,6 +22,13 @@ Full statement / what is proved:
 * `precedence_backend_partial` — backend-specific options: typed TOML values only if the validator keeps them (D14:
   today it raises), and only where `guess_type` is idempotent on the effective value (D15); witnesses `backend_typed_toml_value_crashes`, `backend_value_coerced_twice`,
   `backend_string_default_coerced`.
+* `precedence_any_backend_partial`, `coercion_uniform_any_backend_partial` — the same two statements for EVERY backend
+  class, i.e. for custom backends found through the `replicat.backends` namespace package whatever their constructor
+  signature is (annotated `str` / `int` / `bool` / `float` / `Optional[…]` / string annotations or not, required or
+  with a default): rows of the schema `customBackendRow`, whose three type functions are extracted
+  (`Gen.optBackendCliTy` from the live parsers of all probed backends incl. the annotated probe `vfa`;
+  `Gen.optBackendFileTy` / `Gen.optBackendEnvTy` from the AST).  `backend_rows_follow_schema` — every backend row of the
+  generated table is an instance of that schema.
 -/
 namespace Replicat.C19
 open Replicat Replicat.Gen Replicat.Options
@@ -224,6 +232,51 @@ theorem coercion_uniform_backend_partial (sem : Sem V) (cmd : OptCommand) (hcmd 
       (by intro _ c hc'; simp [specBelowCli, specBelowEnv, specBelowProfile, fileValue, hre, hf1, hfk, hft, hbk, hr, hx, orErr] at hc'; subst hc'; exact hidem)]
     simp [spec, specBelowCli, specBelowEnv, specBelowProfile, fileValue, hre, hf1, hfk, hft, hbk, hr, hx, orErr]
 
+/-! ## any backend: the schema of backend-specific options -/
+
+/-- Every backend-specific row of the generated table (local / s3 / s3c / b2, the custom backend `vfy` and the
+annotated custom backend `vfa`, whose options are declared `str`, `'str'`, `Optional[str]`, `int`, `'int'`, `bool`,
+`float`, `Union[int, str]`, `'Optional[int]'`, `'str | None'`, `Any`) is an instance of the schema
+`customBackendRow`: one flag, one environment variable, one file key, read through the three extracted type functions —
+whatever the parameter's annotation or default. -/
+theorem backend_rows_follow_schema : ∀ row ∈ optRows, row.scope = 2 → isCustomInstance row = true := by
+  decide
+
+/-- **Precedence, options of ANY backend (partial)** — in particular of a custom backend discovered through the
+`replicat.backends` namespace package, with any constructor signature.  Same statement and same two extra hypotheses
+(D14, D15) as `precedence_backend_partial`, for every instance of the schema; discharged from the extracted
+`Gen.optBackendCliTy = Gen.optBackendEnvTy = Gen.optBackendFileTy = guess_type` (`backend_schema_uniform`): a flag type
+that depends on the parameter's annotation makes this stop compiling. -/
+theorem precedence_any_backend_partial (sem : Sem V) (cmd : OptCommand) (hcmd : cmd ∈ optCommands)
+    (owner dest flag envVar key : String) (bk : Nat)
+    (s : Simple V) (hv : valid sem (customBackendRow owner dest flag envVar key bk) s = true)
+    (hstr : TypedValuesKept sem (customBackendRow owner dest flag envVar key bk) s)
+    (hidem : s.cli = none → ∀ c, specBelowCli sem (customBackendRow owner dest flag envVar key bk) s = .ok c →
+      sem.isStr c = true → sem.co .guessType c = some c) :
+    pipelineFinal sem cmd (customBackendRow owner dest flag envVar key bk) s.toInputs =
+      spec sem (customBackendRow owner dest flag envVar key bk) s := by
+  obtain ⟨hc, hp, _⟩ := cmds_ok cmd hcmd
+  exact precedence_backend sem cmd hc hp _ rfl (wfBackend_custom owner dest flag envVar key bk) s hv hstr hidem
+
+/-- **Uniform coercion, options of ANY backend (partial).**  The same raw text `r` gives the backend constructor the
+same value `x = guess_type(r)` whether it came from the command line, the environment, the profile or the default
+section — for every instance of the schema, hence independent of how the constructor declares the option.  Extra
+hypothesis as in `coercion_uniform_backend_partial` (D15). -/
+theorem coercion_uniform_any_backend_partial (sem : Sem V) (cmd : OptCommand) (hcmd : cmd ∈ optCommands)
+    (owner dest flag envVar key : String) (bk : Nat)
+    (r x b : V) (hr : sem.isStr r = true) (hx : sem.co .guessType r = some x)
+    (hidem : sem.isStr x = true → sem.co .guessType x = some x) :
+    pipelineFinal sem cmd (customBackendRow owner dest flag envVar key bk)
+      (Simple.toInputs { cli := some (0, r), env := none, prof := none, dflt := none, builtin := b }) = .ok x ∧
+    pipelineFinal sem cmd (customBackendRow owner dest flag envVar key bk)
+      (Simple.toInputs { cli := none, env := some r, prof := none, dflt := none, builtin := b }) = .ok x ∧
+    pipelineFinal sem cmd (customBackendRow owner dest flag envVar key bk)
+      (Simple.toInputs { cli := none, env := none, prof := some (0, r), dflt := none, builtin := b }) = .ok x ∧
+    pipelineFinal sem cmd (customBackendRow owner dest flag envVar key bk)
+      (Simple.toInputs { cli := none, env := none, prof := none, dflt := some (0, r), builtin := b }) = .ok x := by
+  obtain ⟨hc, hp, _⟩ := cmds_ok cmd hcmd
+  exact coercion_uniform_wfBackend sem cmd hc hp _ rfl (wfBackend_custom owner dest flag envVar key bk) r x b hr hx hidem
+
 /-! ## negation witnesses: the full statement is false of the model (and, replayed by the harness, of the code) -/
 
 
@@ -308,6 +361,21 @@ example :
 example : (∃ cmd ∈ optCommands, ∃ a ∈ flagsOf cmd, ∃ b ∈ flagsOf cmd, (a.flag, b.flag) ∈ documentedExclusive) ∧
     (∃ row ∈ optRows, ∃ a ∈ row.cli, ∃ b ∈ row.cli, a.flag ≠ b.flag) ∧
     (∃ row ∈ optRows, (row.scope == 0 || row.scope == 1) = true ∧ allPlain row = true ∧ row.file.length = 2) := by
+  decide
+
+/-- the schema theorems apply to the README's custom backend: the text `9877` for `--account-id` /
+`PROUDCLOUD_ACCOUNT_ID` / `account-id` reaches the constructor as the integer 9877 from each of the four sources, and
+the table does contain annotated probe options -/
+example :
+    (let viaCli : Simple TV := { cli := some (0, .str "9877"), env := none, prof := none, dflt := none, builtin := .missing }
+     let viaEnv : Simple TV := { cli := none, env := some (.str "9877"), prof := none, dflt := none, builtin := .missing }
+     let viaProf : Simple TV := { cli := none, env := none, prof := some (0, .str "9877"), dflt := none, builtin := .missing }
+     let viaDflt : Simple TV := { cli := none, env := none, prof := none, dflt := some (0, .str "9877"), builtin := .missing }
+     pipelineFinal toySem cmd0 pcAccountId viaCli.toInputs = .ok (.int 9877) ∧
+     pipelineFinal toySem cmd0 pcAccountId viaEnv.toInputs = .ok (.int 9877) ∧
+     pipelineFinal toySem cmd0 pcAccountId viaProf.toInputs = .ok (.int 9877) ∧
+     pipelineFinal toySem cmd0 pcAccountId viaDflt.toInputs = .ok (.int 9877)) ∧
+    optBackendAnnotatedProbes ≥ 10 ∧ (optRows.filter (fun r => r.owner == "vfa")).length ≥ 10 := by
   decide
 
 /-- every sub-command and at least 50 option rows are covered -/
